@@ -215,7 +215,9 @@ static void case_product(vh_ctx *c, long e)
   if (dvector_maxdiff(v, v0) != 0 || !matrix_bitequal(A, A0) || !matrix_bitequal(B, B0)) vh_fail(c, "MatrixDVectorDotProduct|input-modified", "an operand changed");
   DelDVector(&v0);
 
-  /* 5. outer products: a (m) x b (n) */
+  /* 5. outer products: a (m) x b (n).  The inner dimension plays no role here, so each (m, n, scale) is exercised once
+     per pass of the enumeration (at k = (m+n) mod 18) instead of 18 times */
+  if (k != (m + n) % 18) goto outer_done;
   a0 = dvec_dup(a); b0 = dvec_dup(b);
   M = poison_matrix(m, n);
   RowColOuterProduct(a, b, M);
@@ -246,9 +248,11 @@ static void case_product(vh_ctx *c, long e)
   }
   if (dvector_maxdiff(a, a0) != 0 || dvector_maxdiff(b, b0) != 0) vh_fail(c, "DVectorTrasposedDVectorDotProduct|input-modified", "an operand changed");
   DelMatrix(&O); DelDVector(&a0); DelDVector(&b0);
-
+  vh_obs("outer_product_cases", 1);
+  vh_obs("kernel_calls", 2);
+outer_done:
   vh_obs("product_family_cases", 1);
-  vh_obs("kernel_calls", unrolled ? 12 : 11);
+  vh_obs("kernel_calls", unrolled ? 10 : 9);
   ldm_free(ref); ldm_free(ab);
   DelMatrix(&A); DelMatrix(&B); DelMatrix(&C); DelMatrix(&A0); DelMatrix(&B0); DelMatrix(&R);
   DelDVector(&v); DelDVector(&u); DelDVector(&p); DelDVector(&q); DelDVector(&a); DelDVector(&b);
